@@ -588,7 +588,7 @@ fn builder_strategy() -> BoxedStrategy<BuilderCase> {
 
 pub fn c20(s: &mut Session) -> Meta {
   let _ = address_pool();
-  let cases = s.tier().pick(120_000, 6_000_000);
+  let cases = s.tier().pick(2_000_000, 6_000_000);
   s.run_part(Part::new("send", cases, builder_strategy, builder_check).shrink_iters(3000));
   Meta {
     level: "exploration",
